@@ -16,3 +16,70 @@ def engines(ctx):
     res2 = shared.run_model(ctx, "MC_Engines", cfg2, name="MC_Engines(negative control: sentinel comparison)", constants="MaxLen=2")
     if res2.violated != "InvFlox":
         raise MachineryFailure("MC_Engines negative control: the sentinel-comparison variant was not rejected")
+
+
+PIPE_CFG = """SPECIFICATION Spec
+CHECK_DEADLOCK FALSE
+CONSTANTS MaxLen = {maxlen}
+NLabels = {nlabels}
+SplitEverys = {{{ses}}}
+DtypeClass = "{dt}"
+WithMissing = {miss}
+INVARIANT InvResult
+INVARIANT InvLabels
+"""
+
+
+def _write_table(mutate=None):
+    from .. import extract
+
+    rows = extract.write_agg_table()
+    if not rows:
+        raise MachineryFailure("the live registry yielded no blueprint")
+    return rows
+
+
+def pipeline(ctx, *, configs=None, confirm=True):
+    """MC_Pipeline on the blueprint table extracted from the live registry.
+    A counterexample is confirmed on the real code before it counts."""
+    from .. import extract
+    from . import confirm as cf
+
+    rows = _write_table()
+    ctx.cov["live_blueprints"] = len(rows)
+    if configs is None:
+        if ctx.tier == "quick":
+            configs = [dict(maxlen=2, nlabels=2, ses="2", dt="f8", miss="TRUE"),
+                       dict(maxlen=3, nlabels=1, ses="2", dt="i8", miss="TRUE")]
+        else:
+            configs = [dict(maxlen=3, nlabels=2, ses="2", dt="f8", miss="TRUE"),
+                       dict(maxlen=4, nlabels=1, ses="2, 3", dt="i8", miss="TRUE"),
+                       dict(maxlen=4, nlabels=2, ses="2", dt="b1", miss="FALSE")]
+    for c in configs:
+        cfg = PIPE_CFG.format(**c)
+        res = shared.run_model(ctx, "MC_Pipeline", cfg, name=f"MC_Pipeline[{c['dt']},len<={c['maxlen']}]",
+                               constants=str(c), timeout=3000 if ctx.tier == "thorough" else 600)
+        if res.violated:
+            st = res.error_trace[-1] if res.error_trace else {}
+            cf.confirm_pipeline_counterexample(ctx, res, rows)
+    # negative control: a table whose `max` intermediate fill is 0 (not neutral for negative data) must be rejected
+    bad = []
+    for r in rows:
+        r = dict(r)
+        if r["name"] == "max" and r["dtype"] == "f8":
+            r["fillI"] = [[0, 1]] + r["fillI"][1:]
+        bad.append(r)
+    body = ",\n  ".join(extract.tla(r) for r in bad)
+    from .. import tlc
+
+    wd = tlc.new_workdir("pipe-neg")
+    try:
+        (wd / "AggTable.tla").write_text("---- MODULE AggTable ----\nEXTENDS Integers\nAggTable == <<\n  " + body + "\n>>\n====\n")
+        cfg = PIPE_CFG.format(maxlen=2, nlabels=2, ses="2", dt="f8", miss="FALSE")
+        res = tlc.run_tlc("MC_Pipeline", cfg, wd, workers=8, timeout=600)
+        tlc.require_ok(res, "MC_Pipeline negative control")
+        ctx.add_model("MC_Pipeline(negative control: max fill 0)", res, "mutated table")
+        if res.violated != "InvResult":
+            raise MachineryFailure("MC_Pipeline negative control: a non-neutral intermediate fill was not rejected")
+    finally:
+        tlc.cleanup(wd)
